@@ -118,6 +118,20 @@ package offline_signature
 //@   }
 //@ }
 
+// C14 (the statement itself): a value the constructor returns without error
+// passes its own structural validation, serialises, and parses back with an
+// empty remainder to the same serialisation.
+//@ lemma C14_OfflineCtorValidatesAndRoundTrips(expires uint32, tt uint16, tk []byte, sg []byte, dt uint16) {
+//@   o, err := NewOfflineSignature(expires, tt, tk, sg, dt)
+//@   if err == nil {
+//@     assert((&o).ValidateStructure() == nil)
+//@     b := (&o).Bytes()
+//@     o2, rem, e2 := ReadOfflineSignature(b, dt)
+//@     assert(e2 == nil && len(rem) == 0)
+//@     assert(seqeq((&o2).Bytes(), b))
+//@   }
+//@ }
+
 // must-fail canary: nothing was verified, so nothing is known to be valid
 //@ lemma T_mustfail_sig(o *OfflineSignature, k []byte) {
 //@   assert(sigvalid(k, OffSignedData(o), o.signature))
